@@ -152,6 +152,16 @@ def gen_cases(tier, seed):
             blk = [["--block-size", "4096"], ["--no-progress"], ["--block-size", "1MB"], ["--block-size", "7"]][i]
             yield {"unsized": path, "fs": ["ext4", "tmpfs"][i % 2], "driver": driver, "block": blk[-1], "prior": ["absent", "longer"][i % 2],
                    "args": ["--driver", driver, "-w", str(r.choice([1, 4]))] + blk + ([] if i < 3 else ["--reflink", "never"]) + [path, "dst"]}
+    # a file size limit (RLIMIT_FSIZE, with SIGXFSZ ignored so that the kernel answers EFBIG) below the length of a sparse source
+    # whose data would fit: exit 0 must still mean the exact length
+    for i in range(8 if tier == "quick" else 60):
+        driver = ["parfile", "parblock"][i % 2]
+        tail = r.choice(["hole", "hole", "data"])
+        segs = [[0, 30000], [(1 << 20) + 5, 9000]] + ([[(6 << 20) - 100, 100]] if tail == "data" else [])
+        f = {"p": "src/f0", "k": "f", "size": 6 << 20, "seed": r.randrange(1, 1 << 30), "segs": segs, "sync": True, "layout": "sparse-tail-" + tail}
+        blk = r.choice([["--block-size", "4096"], ["--block-size", "1MB"], ["--no-progress"]])
+        yield {"fsize_kb": r.choice([2048, 4096, 5000]), "fs": ["ext4", "tmpfs"][(i // 2) % 2], "spec": [{"p": "src", "k": "d"}, f], "pre": [], "single": True, "prior": "absent", "driver": driver,
+               "block": blk[-1], "bsv": None, "workers": 2, "sched": "os", "sseed": 1, "args": ["--driver", driver, "-w", "2"] + blk + ["src/f0", "dst"]}
     if tier == "thorough":
         # one file larger than a single kernel copy request (2 GiB - 4 KiB), both drivers, --no-progress and 1MB blocks
         for driver in ("parblock", "parfile"):
@@ -229,7 +239,10 @@ def run_case(case):
             pre.update({k: v for k, v in tree.snapshot(sb.other).items() if k and k != "src"})
             fl = [e for e in case["spec"] if e["k"] == "f"]
             args = [((sb.other + "/" if int(a[4:-1]) in case["mixed"] else "") + fl[int(a[4:-1])]["p"]) if a.startswith("@SRC") else a for a in args]
-        if case["sched"] == "os":
+        if case.get("fsize_kb"):
+            run = core.run_plain(["sh", "-c", "trap '' XFSZ; ulimit -f %d; exec \"$@\"" % case["fsize_kb"], "sh"] + core.xcp_argv(args), sb.root, timeout=600)
+            res["counters"]["runs-under-a-file-size-limit"] = 1
+        elif case["sched"] == "os":
             run = core.run_plain(core.xcp_argv(args), sb.root, timeout=600)
         else:
             plan = {"sched": case["sched"], "sched_seed": case["sseed"], "sched_d": 3, "log_mode": "none",
